@@ -96,9 +96,18 @@ class RecursiveChecker(ConversionsVisitor[Conv, Any], ObjectVisitor[Any]):
                 self._guard.pop()
                 self._guard_indices.pop(rec_key)
             if rec_key in self._recursive:
-                for key in self._recursive[rec_key]:
-                    self._cache[key] = True
-                assert self._cache[rec_key]
+                # the cycles through rec_key may be part of a bigger one which is still
+                # being explored: its keys are then written with those of the outer one
+                outer = next(
+                    (k for k in self._guard if rec_key in self._recursive.get(k, ())),
+                    None,
+                )
+                if outer is not None:
+                    self._recursive[outer].update(self._recursive.pop(rec_key))
+                else:
+                    for key in self._recursive[rec_key]:
+                        self._cache[key] = True
+                    assert self._cache[rec_key]
             elif rec_key not in self._all_recursive:
                 self._cache[rec_key] = False
 
